@@ -49,10 +49,15 @@ func genSetup(rng *Rng, plan *Plan, maxMsgs int) int {
 	if n > 1 && rng.Chance(25) {
 		plan.Ops = append(plan.Ops, Op{K: "del", Sel: &OffSel{Kind: "abs", Abs: []int64{int64(rng.Intn(n))}}})
 	}
-	if n > 0 && rng.Chance(25) {
-		// reopen: segments start out as lazily loaded readers
+	if n > 0 && rng.Chance(35) {
+		// reopen: segments start out as lazily loaded readers; with some index files lost the
+		// first readers of a segment have to rebuild them, possibly several at once
 		o := plan.Cfg.Open
-		plan.Ops = append(plan.Ops, Op{K: "reopen", Open: &o})
+		op := Op{K: "reopen", Open: &o}
+		if rng.Chance(45) {
+			op.RmIdx = []int64{-1}
+		}
+		plan.Ops = append(plan.Ops, op)
 	}
 	return n
 }
@@ -73,6 +78,39 @@ func genPlanC08(def *PropDef, tier string, seed uint64, run int64) *Plan {
 		nt = 6
 	}
 	hi := int64(pre + 6)
+	if pre >= 3 && rng.Chance(15) {
+		// unload/reload stress: readers of the old segments against GC tasks
+		plan.Tasks = nil
+		nr := rng.Range(2, 4)
+		for t := 0; t < nr; t++ {
+			var script []Op
+			for c, nc := 0, rng.Range(2, 4); c < nc; c++ {
+				switch rng.Pick(40, 25, 15, 20) {
+				case 0:
+					script = append(script, Op{K: "consume", A: rng.I64(-2, int64(pre)), B: int64(rng.Range(1, 3))})
+				case 1:
+					script = append(script, Op{K: "get", A: rng.I64(0, int64(pre)-1)})
+				case 2:
+					script = append(script, Op{K: "get_key", Key: sKeys[rng.Intn(len(sKeys))]})
+				default:
+					script = append(script, Op{K: "consume_key", Key: sKeys[rng.Intn(len(sKeys))], A: rng.I64(-2, int64(pre)), B: 2})
+				}
+			}
+			plan.Tasks = append(plan.Tasks, script)
+		}
+		for t, ng := 0, rng.Range(1, 2); t < ng; t++ {
+			var script []Op
+			for c, nc := 0, rng.Range(2, 4); c < nc; c++ {
+				script = append(script, Op{K: "gc", A: 0})
+			}
+			plan.Tasks = append(plan.Tasks, script)
+		}
+		if rng.Chance(40) {
+			plan.Tasks = append(plan.Tasks, []Op{{K: "pub", Msgs: []PMsg{{Key: sKeys[0], Val: sVal(7, 0, 0), TMode: 2}}}})
+		}
+		plan.Sched = genSched(rng, len(plan.Tasks))
+		return plan
+	}
 	for t := 0; t < nt; t++ {
 		var script []Op
 		nc := rng.Range(1, 4)
